@@ -411,7 +411,11 @@ def markTailCalls (fname : Nat) : Nat → Val → M Val
         let hn := headName c th
         let newTail : M Val :=
           if isSelf then do
-            let argsCopy ← deepCopy targs
+            -- `nil.append(args)`: a copy of a list, nil for nil, and `(atom)` for a dotted call `(f . atom)`
+            let argsCopy ← match targs with
+              | .cons .. => deepCopy targs
+              | .nil => pure Val.nil
+              | atom => mkListM [atom]
             let l ← mkListM [.builtin .evalEach, .bounce]
             match l with
             | .cons i1 x (.cons i2 y _) => pure (.cons i1 x (.cons i2 y argsCopy))
@@ -425,15 +429,17 @@ def markTailCalls (fname : Nat) : Nat → Val → M Val
               let b ← markTailCalls fname fuel lbody
               let b' ← mkCons varlist b
               mkCons th b'
-            | _ => do
+            | .nil => do
               -- `(let)`: destruct_bind yields nil varlist and nil body
               mkListM [th, .nil]
+            | _ => M.throw .typeMismatch       -- `(let . atom)`: car of an atom
           else if hn = "if" then
             match targs with
-            | .cons _ cond rest =>
-              let (thenF, elseB) := match rest with
-                | .cons _ tf e => (tf, e)
-                | _ => (Val.nil, Val.nil)
+            | .cons _ cond rest => do
+              let (thenF, elseB) ← (match rest with
+                | .cons _ tf e => pure (tf, e)
+                | .nil => pure (Val.nil, Val.nil)
+                | _ => M.throw .typeMismatch : M (Val × Val))      -- `(if c . atom)`: car of an atom
               do
                 let tl ← mkListM [thenF]
                 let tm ← markTailCalls fname fuel tl
@@ -442,7 +448,8 @@ def markTailCalls (fname : Nat) : Nat → Val → M Val
                 let l3 ← mkCons thenF' e'
                 let l2 ← mkCons cond l3
                 mkCons th l2
-            | _ => mkListM [th, .nil, .nil]
+            | .nil => mkListM [th, .nil, .nil]
+            | _ => M.throw .typeMismatch        -- `(if . atom)`
           else if hn = "cond" then do
             let clauses ← markClauses fname fuel targs
             mkCons th clauses
